@@ -357,6 +357,11 @@ def ctor_cases():
             kw = {k_: perm(v_) for k_, v_ in base.items()}
             for pn, pf in (("none", lambda: None), ("chrom", chrom)):
                 add(f"SYS {cname}(order:{oname},{pn})", lambda fn=fn, kw=kw, pf=pf: fn(kw, pf()))
+        # a block nested inside the previous one (and one that only overlaps it): well-formed (end = the largest end) or refused
+        for nname, st_, en_ in (("nested", [7, 8], [12, 10]), ("staggered", [6, 8], [10, 12]), ("nested-3", [6, 7, 9], [12, 9, 11])):
+            kw = dict(base, starts=st_, ends=en_, **({"frames": [Z] * len(st_)} if "frames" in base else {}))
+            for pn, pf in (("none", lambda: None), ("chrom", chrom)):
+                add(f"SYS {cname}(blocks:{nname},{pn})", lambda fn=fn, kw=kw, pf=pf: fn(kw, pf()))
         if "frames" in base:
             add(f"SYS {cname}(all lists empty)", lambda fn=fn, base=base: fn({k_: [] for k_ in base}, chrom()))
     # from_single_intervals: every ordered pair of blocks whose parents are of two DIFFERENT kinds must be refused
